@@ -126,11 +126,13 @@ theorem intersection_union_normal (l r : List Sel) :
 /-- **The selector-cursor loop of `ParquetRecordBatchReader::next_inner`**, drained: for any
 selection that fits the rows available (`domain s ≤ total`) and any batch size `b > 0`, no
 error occurs, the concatenation of the produced batches is exactly the selected positions in
-order (the tape restricted to `positions s`), and every batch has between 1 and `b` rows. -/
+order (the tape restricted to `positions s`), every batch has between 1 and `b` rows, and
+every batch but the last has exactly `b` rows. -/
 theorem reader_selectors_exact (b total : Nat) (hb : 0 < b) (s : List Sel)
     (hfit : domain s ≤ total) :
     ∃ batches, readAll b total (total + 2) (.selectors s) 0 = some batches ∧
-      batches.flatten = positions s ∧ ∀ x ∈ batches, 0 < x.length ∧ x.length ≤ b := by
+      batches.flatten = positions s ∧ (∀ x ∈ batches, 0 < x.length ∧ x.length ≤ b) ∧
+      ∀ x ∈ batches.dropLast, x.length = b := by
   unfold domain at hfit
   rw [mask_length] at hfit
   refine readAll_selectors b total hb (total + 2) s 0 (by omega) ?_
@@ -145,11 +147,13 @@ example : domain [(3, true), (4, false), (2, true), (5, false)] ≤ 20 := by dec
 /-- **The mask-cursor path (`read_mask_batch` + `MaskCursor::next_mask_chunk`, no loaded row
 ranges)**, drained: for any mask (trimmed as `ReadPlanBuilder::build` does), any batch size
 `b > 0`, no error occurs, the concatenation of the filtered batches is exactly the selected
-positions in order, and every batch has between 1 and `b` rows.  Together with
+positions in order, every batch has between 1 and `b` rows (all but the last exactly `b`).
+Together with
 `reader_selectors_exact`: both `RowSelectionPolicy` strategies deliver the same rows. -/
 theorem reader_mask_exact (b total : Nat) (hb : 0 < b) (m : List Bool) (hfit : m.length ≤ total) :
     ∃ batches, readAll b total (total + 2) (.mask (trimMask m)) 0 = some batches ∧
-      batches.flatten = trueIdx 0 m ∧ ∀ x ∈ batches, 0 < x.length ∧ x.length ≤ b := by
+      batches.flatten = trueIdx 0 m ∧ (∀ x ∈ batches, 0 < x.length ∧ x.length ≤ b) ∧
+      ∀ x ∈ batches.dropLast, x.length = b := by
   have hl := trimMask_length m
   have := readAll_mask b total hb (total + 2) (trimMask m) 0 (by omega) (trimMask_trimmed m) (by
     have h1 := trueIdx_length 0 (trimMask m)
